@@ -119,8 +119,8 @@ func (r *vfMetaLoadRun) opts(dir string) *Options {
 	opts.Logger = log.New(io.Discard, "", 0)
 	opts.LogLevel = LOG_FATAL
 	opts.DataPath = dir
-	opts.TCPAddress = "127.0.0.1:0"
-	opts.HTTPAddress = "127.0.0.1:0"
+	opts.TCPAddress = vfMetaLoop()
+	opts.HTTPAddress = vfMetaLoop()
 	opts.MemQueueSize = 10
 	return opts
 }
